@@ -58,6 +58,8 @@ def model_checks(ctx, thorough):
         ("seeded: Value.Get without RLock", 2, "val", {"Mutant": '"getNoRLock"'}, None),
         ("seeded: Bus.collect without listenerM", 2, "bus", {"Mutant": '"collectNoLock"'}, None),
         ("seeded: router.Has without lock", 2, "rtr", {"Mutant": '"hasNoLock"'}, None),
+        ("seeded: a late SetHeader appends into the metadata map the client's Header() is cloning outside the lock", 2, "stream",
+         {"Mutant": '"metadataAppendedInPlace"'}, None),
         ("seeded: the library normalises the caller's update mask in place when the shared option is applied", 2, "opt",
          {"Mutant": '"optionNormalisedInPlace"'}, "OnlyOptionRaces"),
     ]
